@@ -21,13 +21,13 @@ TH = [-1, 0.25, 1, 3, 10, 1e29, 1e31, float('inf')]
 RULE = ('Histories of 1..5 operations on one FitInfo: keep(sel) with the six selector forms (thresholds from a grid; a step whose '
         'threshold equals an attained value is skipped because the property is silent on equality), pickle hop, file hop, consumer hop. '
         'Family a: synthetic results built through the public class (chi^2 of length 0..8 over an alphabet with ties, 1e30, inf, NaN; every '
-        'per-fit array tagged by row). Family b: results of a real fit of a package holding duplicate SEDs (exact ties) and sources with '
+        'per-fit array tagged by row; 1 run in 250 adds 1100..140000 random further fits with a relative selector cutting inside them). Family b: results of a real fit of a package holding duplicate SEDs (exact ties) and sources with '
         'confidence-1 limits (chi^2 >= 1e30). Non-trivial = at least one step compared with >= 1 row in play; distinct = distinct '
         '(family, chi^2 pattern class, n_data, per-step (op, selector form, kept count class)).')
 ASSUMPTIONS = ['FitInfo.sort order (numpy argsort, NaN last) is taken as the ranking', 'selector thresholds equal to an attained value are not judged',
                "('A', v) is used with an arbitrary v, as in the documentation"]
 PROBES = ['tie_in_chi2', 'nan_present', 'inf_present', 'zero_length_result', 'kept_zero', 'kept_all', 'kept_some', 'equal_threshold_skipped',
-          'hop_pickle', 'hop_file', 'hop_consumer', 'family_real', 'composition_checked', 'n_beyond_total', 'flags_edited_in_place', 'rejected_flag_assignment', 'hop_file_pair']
+          'hop_pickle', 'hop_file', 'hop_consumer', 'family_real', 'composition_checked', 'n_beyond_total', 'flags_edited_in_place', 'rejected_flag_assignment', 'hop_file_pair', 'long_ranking', 'long_relative_cut_inside']
 
 
 def budgets(tier):
@@ -84,6 +84,18 @@ def generate(rng, tier, idx):
             st['sel'] = _gen_sel(rng)
         steps.append(st)
     sc['steps'] = steps
+    if not real and rng.random() < 0.004:
+        # a ranking far longer than any internal block size a reimplementation might use; one relative selector is
+        # guaranteed whose cut falls well inside the vector
+        rel = [st for st in steps if st['op'] == 'keep' and st['sel'][0] in 'DF' and 0 < st['sel'][1] < 100]
+        if not rel:
+            st = {'op': 'keep', 'sel': [rng.choice('DF'), rng.choice([0.25, 1, 3, 10])]}
+            steps.insert(rng.randrange(len(steps) + 1), st)
+            rel = [st]
+        st = rng.choice(rel)
+        span = st['sel'][1] * (n_data_of(sc['valid']) if st['sel'][0] == 'F' else 1)
+        sc['long'] = {'n': rng.choice([1100, 2500, 5000, 9000, 17000, 20000, 33000, 40000, 70000, 140000]), 'seed': rng.randrange(1 << 30),
+                      'hi': span * rng.uniform(1.05, 3.0), 'base': rng.choice([0.0, 0.0, 2.5, 1e3])}
     return sc
 
 
@@ -103,7 +115,11 @@ def _build_synthetic(sc):
     from astropy import units as u
     from sedfitter.extinction import Extinction
     from sedfitter.source import Source
-    chi = np.sort(np.array([ALPHA[i] for i in sc['chi_idx']], float))
+    chi = np.array([ALPHA[i] for i in sc['chi_idx']], float)
+    if sc.get('long'):
+        lg = sc['long']
+        chi = np.concatenate([chi, lg['base'] + np.random.RandomState(lg['seed']).uniform(0, lg['hi'], lg['n'])])
+    chi = np.sort(chi)
     n = len(chi)
     s = Source()
     s.name = 'x'
@@ -179,6 +195,8 @@ def _execute(sc, sim, out):
     R = {'chi2': _f(info.chi2), 'av': _f(info.av), 'sc': _f(info.sc), 'model_id': _f(info.model_id),
          'model_name': [str(x) for x in info.model_name], 'model_fluxes': _f(info.model_fluxes)}
     n0 = len(R['chi2'])
+    if sc.get('long'):
+        out.probe('long_ranking')
     if n0 == 0:
         out.probe('zero_length_result')
     fin = R['chi2'][np.isfinite(R['chi2'])]
@@ -264,6 +282,8 @@ def _execute(sc, sim, out):
                 break
             kprev = k
             k = want
+            if sel[0] in 'DF' and 1000 < k < kprev:
+                out.probe('long_relative_cut_inside')
             out.probe('kept_zero' if k == 0 else ('kept_all' if k == kprev else 'kept_some'))
             trace.append((op, sel[0], 0 if k == 0 else (1 if k == kprev else 2)))
             if not check(i, 'keep%r' % (sel,)):
@@ -357,6 +377,10 @@ def _execute(sc, sim, out):
 
 def lowerings(sc, viol=None):
     if sc['family'] == 'a':
+        if sc.get('long'):
+            yield {k: v for k, v in sc.items() if k != 'long'}
+            if sc['long']['n'] > 1100:
+                yield dict(sc, long=dict(sc['long'], n=max(1100, sc['long']['n'] // 2)))
         for i in range(len(sc['chi_idx'])):
             yield dict(sc, chi_idx=sc['chi_idx'][:i] + sc['chi_idx'][i + 1:])
         if sc['with_fluxes']:
